@@ -129,6 +129,8 @@ func runC16(c *an.Ctx) {
 	// height above the head cannot be fetched, tail renewal would fail on every Head()/Start), and the
 	// refinement only walks up past headers that are older than the window cut
 	if find := p.Method("sync", "Syncer", "findTailHeight"); c.Need(find, "C16.c", "sync.(*Syncer).findTailHeight") {
+		checkExistingTailMovedBySearchOnly(c, "C16.c", tailHeight, find)
+		checkFarEstimateAboveOldTail(c, "C16.c", find)
 		ft, ff := c.T(find), c.F(find)
 		var walk *ssa.Phi
 		an.Instrs(find, func(in ssa.Instruction) {
